@@ -311,6 +311,11 @@ def _aggregate(ck, p, byk):
             lt = f.local_ty(pl0[0])
             if lt["k"] == "ref" and lt["mut"]:
                 elem.append((last(n), t))
+    for c in p.closures_of(f.name):
+        for _, t in c.calls():
+            n = inst_of(t)
+            if n.startswith("harper_core::span::{impl}::") and last(n) in ("pull_by", "push_by", "set_len", "with_len", "expand", "extend"):
+                elem.append((last(n), t))
     names = sorted({m for m, _ in elem})
     ck.decide(rule, "LintGroup::lint:element-ops", set(names) <= {"pull_by", "push_by"} and len(names) == 2, f.span, "mutating Span operations on lint elements: %s" % names)
 
